@@ -55,6 +55,32 @@ Theorem C06_spec_ok_sound : forall p es crashed r,
 Proof. exact spec_ok_sound. Qed.
 Print Assumptions C06_spec_ok_sound.
 
+(* What the event handlers hand on to the relayer cannot crash the consumer.  HandleEvents pushes
+   each group of [run p es] to the message channel as one batch; sygma-core's Relayer.route
+   ([route], no recover) panics on an empty batch or a nil message.  The groups are non-empty by
+   construction and hold only messages of their own destination ... *)
+Theorem C06_no_empty_group : forall p es g k l,
+  run p es = Done g -> In (k, l) g -> l <> [] /\ forall m, In m l -> dest m = k.
+Proof. exact no_empty_group. Qed.
+Print Assumptions C06_no_empty_group.
+
+(* ... so every batch is delivered, whole, to the chain of its destination ... *)
+Theorem C06_groups_routed : forall p es g k l,
+  run p es = Done g -> In (k, l) g -> route (map Some l) = Delivered k l.
+Proof. exact groups_routed. Qed.
+Print Assumptions C06_groups_routed.
+
+(* ... the judge on the batches observed on the message channel accepts the model on every input,
+   and whatever it accepts holds no empty batch and no nil message and is survived by route. *)
+Theorem C06_sent_ok_model : forall p es g, run p es = Done g -> sent_ok (batches_of g) = true.
+Proof. exact sent_ok_model. Qed.
+Print Assumptions C06_sent_ok_model.
+
+Theorem C06_sent_ok_sound : forall bs, sent_ok bs = true ->
+  forall b, In b bs -> b <> [] /\ ~ In None b /\ exists k l, route b = Delivered k l.
+Proof. exact sent_ok_sound. Qed.
+Print Assumptions C06_sent_ok_sound.
+
 (* The tree before the repairs violates the property on both retry paths (DESIGN.md section 7
    rows 3 and 4): statements about the explicitly named old definitions. *)
 Theorem C06_retry_v1_old_refuted : exists es m st,
@@ -81,5 +107,9 @@ Example C06_nonvacuous :
   run EvmRetryV1 es = Done [(2, [(2, 1); (2, 9); (2, 3)]); (3, [(3, 2)])] /\
   healthy EvmRetryV1 es 2 = [(2, 1); (2, 3)] /\
   run_old EvmRetryV1 es = Done [] /\ run_old SubRetry es = Done [] /\
-  run SubRetry es = run EvmRetryV1 es /\ run BtcDeposits es = run EvmRetryV1 es.
+  run SubRetry es = run EvmRetryV1 es /\ run BtcDeposits es = run EvmRetryV1 es /\
+  sent_ok (batches_of [(2, [(2, 1); (2, 9); (2, 3)]); (3, [(3, 2)])]) = true /\
+  (* a destination all of whose deposits are malformed has NO group; an empty or nil-holding batch is rejected *)
+  run EvmDeposits [RDeps [(Good (2, 1), StNew); (Bad Err, StNew)]] = Done [(2, [(2, 1)])] /\
+  sent_ok [[Some (2, 1)]; []] = false /\ sent_ok [[Some (2, 1); None]] = false.
 Proof. vm_compute. repeat split. Qed.
